@@ -47,6 +47,8 @@ structure FSt where
   specFails : Nat := 0
   checks : Std.HashMap String Nat := {}
   out : Array String := #[]
+  /-- the result list of the last `FetchAll` (for the progress reports) -/
+  lastResult : List String := []
 
 namespace FSt
 def emit (s : FSt) (m : String) : FSt := { s with out := s.out.push m }
@@ -190,7 +192,12 @@ def handleFetch (s : FSt) (line : String) : FSt :=
       let b := sortStrs (op.dispatched.map (s.showH [·]))
       let s := s.count "cmp:requests"
       if a == b then s else s.diff "requests-vs-dispatches" (",".intercalate b) (",".intercalate a)
+  | ["PG", l] =>
+    -- C11: every admitted entry is reported on the progress channel exactly once, and nothing else
+    s.spec "C11" "progressOncePerEntry" (sortStrs (parseList l) == sortStrs s.lastResult)
+      s!"progress={l} result={",".intercalate s.lastResult}"
   | ["R", outcome, l] =>
+    let s := { s with lastResult := parseList l }
     match s.op with
     | none => s
     | some op =>
